@@ -235,7 +235,11 @@ func TestVerifC25Cluster(t *testing.T) {
 		for round := 0; round < 2; round++ {
 			for _, k := range rng.Perm(3) {
 				ops = append(ops, fmt.Sprintf("SyncData on node %d", k))
-				if err := c[k].Server.SyncData(); err != nil {
+				stale, err := vrcSyncData(c, k, index)
+				if stale {
+					r.Cover("cluster:observed:stale-index-resurrected-by-gossip")
+				}
+				if err != nil {
 					r.FailOrUndecided("cluster:sync-error", id, fmt.Sprintf("SyncData on node %d: %v", k, err), wit())
 					return
 				}
